@@ -1,6 +1,7 @@
 import Ark.Proofs.TableIDs
 import Ark.Proofs.ArchIndex
 import Ark.Props.C05Cache
+import Ark.Proofs.GenBridge.BookArchetype
 
 namespace Ark.Props.C05
 open Ark
@@ -54,5 +55,38 @@ theorem cache_inv_table_removed : type_of% @Ark.Props.C05Cache.inv_removeTable :
 
 /-- Reset leaves the empty cache -/
 theorem cache_inv_reset : type_of% @Ark.Props.C05Cache.inv_reset := @Ark.Props.C05Cache.inv_reset
+
+
+/-! ### The code itself: `tableIDs` of archetype.go, translated statement by statement on every run -/
+
+/-- `newTableIDs` as in the source = the model's `TableIDs.ofList` -/
+theorem src_newTableIDs : type_of% @Ark.GenBridge.Book.newTableIDs_eq := @Ark.GenBridge.Book.newTableIDs_eq
+/-- `tableIDs.Append` as in the source = the model's -/
+theorem src_tableIDs_append : type_of% @Ark.GenBridge.Book.append_eq := @Ark.GenBridge.Book.append_eq
+/-- `tableIDs.Remove` (swap-remove through the index map) as in the source = the model's, for every state -/
+theorem src_tableIDs_remove : type_of% @Ark.GenBridge.Book.remove_eq := @Ark.GenBridge.Book.remove_eq
+/-- `tableIDs.Clear` as in the source = the model's -/
+theorem src_tableIDs_clear : type_of% @Ark.GenBridge.Book.clear_eq := @Ark.GenBridge.Book.clear_eq
+
+/-! ### The code itself: the relation-index bookkeeping of archetype.go, translated statement by statement on every run -/
+
+/-- `archetype.AddTable` as in the source = the model's `Archetype.addTable`, for every archetype and every table with the archetype's layout -/
+theorem src_addTable : type_of% @Ark.GenBridge.Book.addTable_eq := @Ark.GenBridge.Book.addTable_eq
+/-- `archetype.RemoveTarget` as in the source = the model's -/
+theorem src_removeTarget : type_of% @Ark.GenBridge.Book.removeTarget_eq := @Ark.GenBridge.Book.removeTarget_eq
+/-- `archetype.GetFreeTable` as in the source = the model's (pop the last free table) -/
+theorem src_getFreeTable : type_of% @Ark.GenBridge.Book.getFreeTable_eq := @Ark.GenBridge.Book.getFreeTable_eq
+/-- `archetype.HasRelations` as in the source = the model's -/
+theorem src_hasRelations : type_of% @Ark.GenBridge.Book.hasRelations_eq := @Ark.GenBridge.Book.hasRelations_eq
+/-- `archetype.FreeTable` as in the source = the model's `Archetype.freeTable` (+ the table's free flag) -/
+theorem src_freeTable : type_of% @Ark.GenBridge.Book.freeTable_eq := @Ark.GenBridge.Book.freeTable_eq
+/-- `archetype.removeTableRelations` as in the source = the model's -/
+theorem src_removeTableRelations : type_of% @Ark.GenBridge.Book.removeTableRelations_eq := @Ark.GenBridge.Book.removeTableRelations_eq
+/-- `archetype.FreeAllTables` as in the source = the model's `freeAllTables`: every per-column lookup and the per-target lookup are emptied -/
+theorem src_freeAllTables : type_of% @Ark.GenBridge.Book.freeAllTables_eq := @Ark.GenBridge.Book.freeAllTables_eq
+/-- … and exactly the archetype's active tables are marked free in the table store -/
+theorem src_freeAllTables_storage : type_of% @Ark.GenBridge.Book.freeAllTables_storage := @Ark.GenBridge.Book.freeAllTables_storage
+/-- what marking a list of tables free does to the table store -/
+theorem src_markFree : type_of% @Ark.GenBridge.Book.markFree_fold := @Ark.GenBridge.Book.markFree_fold
 
 end Ark.Props.C05
